@@ -134,6 +134,13 @@ func init() {
 		harnessPkg + ".Uint16": func(in *Interp, fn *ssa.Function, a []Value, _ ssa.CallInstruction) Value { return in.newInput(argStr(a[0]), 16) },
 		harnessPkg + ".Uint8":  func(in *Interp, fn *ssa.Function, a []Value, _ ssa.CallInstruction) Value { return in.newInput(argStr(a[0]), 8) },
 		harnessPkg + ".Byte":   func(in *Interp, fn *ssa.Function, a []Value, _ ssa.CallInstruction) Value { return in.newInput(argStr(a[0]), 8) },
+		harnessPkg + ".IntByte": func(in *Interp, fn *ssa.Function, a []Value, _ ssa.CallInstruction) Value {
+			// a byte whose solver variable is a mathematical integer in [0,255] (for harnesses
+			// whose arithmetic is real/integer rather than bit-vector)
+			v := in.newInput(argStr(a[0]), SortInt)
+			in.assume(in.tt.And(in.tt.IBin(OpILe, in.tt.IConst(0), v), in.tt.IBin(OpILe, v, in.tt.IConst(255))))
+			return in.tt.Un(OpInt2BV, 8, v)
+		},
 		harnessPkg + ".Bool":   func(in *Interp, fn *ssa.Function, a []Value, _ ssa.CallInstruction) Value { return in.newInput(argStr(a[0]), SortBool) },
 		harnessPkg + ".Bytes": func(in *Interp, fn *ssa.Function, a []Value, _ ssa.CallInstruction) Value {
 			n := int(a[1].(uint64))
